@@ -1849,7 +1849,7 @@ func CantAdd(mach am.Api, states am.S, args am.A) bool {
 	mach.CanAdd(states, am.PassMerge(args, am.Pass(args2)))
 	<-args2.CheckDone
 
-	return !args2.Canceled
+	return args2.Canceled
 }
 
 // CantAdd1 is a single-state version of [CantAdd].
